@@ -31,9 +31,7 @@ of the LFRic infrastructure shipped with PSyclone and the LFRic field_mod):
 A halo exchange to depth d refreshes the annexed DoFs and the halo DoFs of
 depth <= d with the OWNER partition's current value.
 """
-from fractions import Fraction
-
-from mc.fortsem.interp import (ArrayVal, Cell, ObjVal, POISON, make_array)
+from mc.fortsem.interp import ObjVal, POISON, make_array
 
 
 class LFRicAbort(Exception):
